@@ -443,7 +443,10 @@ func (c *taskCfg) fromClause() string {
 	return strings.Join(parts, ", ")
 }
 
-func (c *taskCfg) script() string {
+func (c *taskCfg) script() string { return c.chain("o") }
+
+// chain is one `batch|query(...)...|log()` pipeline.
+func (c *taskCfg) chain(sink string) string {
 	u := c.unit
 	q := "SELECT v FROM " + c.fromClause()
 	if c.Where != "" {
@@ -490,7 +493,7 @@ func (c *taskCfg) script() string {
 	default:
 		fmt.Fprintf(&b, "    .fill('%s')\n", c.Fill)
 	}
-	b.WriteString("  |log().prefix('o')\n")
+	fmt.Fprintf(&b, "  |log().prefix('%s')\n", sink)
 	return b.String()
 }
 
@@ -559,6 +562,57 @@ func (tr *taskRunner) hist(c *taskCfg, spans [][2]int) {
 		t.Event("HistRet", rt.M{"err": "", "qs": items})
 		if len(items) >= 2 {
 			t.Distinct(fmt.Sprintf("%v|%v", c.J(), sp))
+		}
+	}
+}
+
+// histMulti: one task with two query nodes; BatchQueries returns one list per node.
+func (tr *taskRunner) histMulti(c1, c2 *taskCfg, spans [][2]int) {
+	tr.n++
+	c1.Meas, c2.Meas = fmt.Sprintf("m%da", tr.n), fmt.Sprintf("m%db", tr.n)
+	script := "var a = " + c1.chain("o") + "var b = " + c2.chain("p")
+	task, err := tr.env.TM.NewTask(fmt.Sprintf("t%d", tr.n), script, kapacitor.BatchTask, c1.dbrps(), 0, nil)
+	if err != nil {
+		rt.Fatalf("NewTask: %v\n%s", err, script)
+	}
+	et, err := kapacitor.NewExecutingTask(tr.env.TM, task)
+	if err != nil {
+		rt.Fatalf("NewExecutingTask: %v\n%s", err, script)
+	}
+	en := encMap(TM)
+	type res struct {
+		err   string
+		items [][]any
+	}
+	var results []res
+	for _, sp := range spans {
+		bqs, err := et.BatchQueries(TM.T(sp[0]), TM.T(sp[1]))
+		r := res{items: [][]any{{}, {}}}
+		if err != nil {
+			r.err = err.Error()
+		} else if len(bqs) != 2 {
+			r.err = fmt.Sprintf("BatchQueries returned %d lists for 2 query nodes", len(bqs))
+		} else {
+			// the order of the lists is the executing task's node order, which nothing ties to the
+			// order in the script: attribute each list to its node by the measurement it queries
+			for _, bq := range bqs {
+				for _, q := range bq.Queries {
+					i := 0
+					if strings.Contains(q.String(), c2.Meas) {
+						i = 1
+					}
+					r.items[i] = append(r.items[i], histItem(q, TM, en, TM.Unit))
+				}
+			}
+		}
+		results = append(results, r)
+	}
+	for i, c := range []*taskCfg{c1, c2} {
+		tr.t.Reset(rt.M{"kind": "task", "script": script, "node": i})
+		tr.t.Event("Task", rt.M{"cfg": c.J(), "err": ""})
+		for k, sp := range spans {
+			tr.t.Event("Hist", rt.M{"start": sp[0], "stop": sp[1]})
+			tr.t.Event("HistRet", rt.M{"err": results[k].err, "qs": results[k].items[i]})
 		}
 	}
 }
@@ -789,6 +843,13 @@ func runTasks(r *rt.Run, t *rt.Trace) error {
 			c.Kind, c.P, c.R, c.Period, c.Offset = "cron", cr[0], cr[1], 7, of
 			tr.hist(c, spansFor(cr[0], []int{0, cr[0] - 1, cr[0], 3*cr[0] + 1}, base))
 		}
+	}
+	// two query nodes in one task (different schedules, group-by and conditions)
+	for _, al := range []bool{false, true} {
+		c1, c2 := mk(), mk()
+		c1.Every, c1.Align, c1.Period, c1.Offset = 10, al, 10, 3
+		c2.Every, c2.Align, c2.Period, c2.Offset = 4, !al, 7, 0
+		tr.histMulti(c1, c2, spansFor(10, []int{9, 25}, base))
 	}
 	nHist := tr.n
 	// declared vs queried DBRPs: BatchQueries and StartBatching must both refuse
